@@ -8,6 +8,7 @@ import (
 	"crypto/ed25519"
 	"crypto/rsa"
 	"fmt"
+	"runtime/debug"
 	"strings"
 	"sync"
 
@@ -44,6 +45,9 @@ type memCase struct {
 	// Text: the textual transforms applied, in this order, to the document of the functions that take a key or a certificate as
 	// text (keydoc_test.go); each takes its position / byte / width from Seed.
 	Text []string
+	// Mem: the memory the caller's buffers live in: "heap" (or empty), or "fenced": pages of their own, mapped read-only during the call
+	// wherever the callee has no right to write, so that a write faults when it happens - also one that is undone before the call returns (fence_test.go)
+	Mem  string
 	Seed uint64
 }
 
@@ -55,11 +59,14 @@ func (c memCase) String() string {
 	if len(c.Text) > 0 {
 		lay += fmt.Sprintf(" text=%v", c.Text)
 	}
+	if c.Mem != "" {
+		lay += " mem=" + c.Mem
+	}
 	return fmt.Sprintf("mem{op=%s alg=%s mode=%s len=%d aad=%d spare=%v dst=%s/%d nilEmpty=%v%s seed=%#x}", c.Op, c.Alg, c.Mode, c.Len, c.AadLen, c.Spare, c.Dst, c.DstLen, c.NilEmpty, lay, c.Seed)
 }
 
 func (c memCase) fp() uint64 {
-	return vk.FP("mem", c.Op, c.Alg, c.Mode, c.Len, c.AadLen, fmt.Sprint(c.Spare), c.Dst, c.DstLen, c.NilEmpty, fmt.Sprint(c.Pack), fmt.Sprint(c.Gap), c.Cap, strings.Join(c.Text, ">"))
+	return vk.FP("mem", c.Op, c.Alg, c.Mode, c.Len, c.AadLen, fmt.Sprint(c.Spare), c.Dst, c.DstLen, c.NilEmpty, fmt.Sprint(c.Pack), fmt.Sprint(c.Gap), c.Cap, strings.Join(c.Text, ">"), c.Mem == "fenced")
 }
 
 // call is the bookkeeping of one case.
@@ -108,6 +115,8 @@ func plain(name string, content []byte) argSpec { return argSpec{name: name, con
 func (k *call) layout(specs ...argSpec) [][]byte {
 	out := make([][]byte, len(specs))
 	spares := make([]int, len(specs))
+	k.a.capHint = k.c.Dst == "inplace-capped"
+	defer k.a.seal() // from here on the arguments are what the callee sees: nothing but an explicit dst may be written (the role of an argument may still change: protect seals again)
 	var packable []int
 	for i, s := range specs {
 		spares[i] = k.spare()
@@ -146,7 +155,11 @@ func (k *call) layout(specs ...argSpec) [][]byte {
 		case argDst:
 			out[i] = k.a.dst(s.name, s.content, spares[i]+s.extra)
 		case argInPlace:
-			out[i] = k.a.cut(s.name, s.content, spares[i])
+			boundary := guardLen + len(s.content) + spares[i]
+			if k.a.capHint {
+				boundary = guardLen + len(s.content)
+			}
+			out[i] = k.a.cutB(s.name, s.content, spares[i], boundary, true)
 			k.a.reuseAsDst(s.name)
 		}
 	}
@@ -173,10 +186,17 @@ func (k *call) layout(specs ...argSpec) [][]byte {
 func (k *call) arg(name string, content []byte) []byte { return k.layout(plain(name, content))[0] }
 
 // protect runs f and turns a panic into data: C17 is about memory, not about panics (those belong to C03/C07).
+// With fenced memory a write into a page the callee has no right to write faults: the fault arrives here as a panic that carries
+// the address (debug.SetPanicOnFault), and that IS a verdict.
 func (k *call) protect(f func()) {
+	k.a.seal()
+	defer debug.SetPanicOnFault(debug.SetPanicOnFault(true))
 	defer func() {
 		if r := recover(); r != nil {
 			k.pnc = r
+			if e, ok := r.(interface{ Addr() uintptr }); ok {
+				k.a.noteFault(e.Addr())
+			}
 		}
 	}()
 	f()
@@ -602,8 +622,7 @@ func (k *call) verify() {
 		n = c.Len
 	}
 	kn := sigKeyName(s, c.Seed)
-	digestB := k.rnd("digest", n)
-	sigB, err := s.Sign(stdKey(kn), digestB)
+	digestB, sigB, err := k.signedDigest(s, kn, n)
 	if err != nil {
 		k.harness = "reference signature: " + err.Error()
 		return
@@ -611,6 +630,7 @@ func (k *call) verify() {
 	key := fixedJWK(kn + ".pub")
 	reached := true
 	switch c.Mode {
+	case "ok":
 	case "tampersig":
 		sigB = flip(sigB, c.Seed)
 	case "tamperdigest":
@@ -623,13 +643,54 @@ func (k *call) verify() {
 		sigB = sigB[:int(c.Seed%uint64(len(sigB)))]
 	case "wrongkeykind":
 		key, reached = fixedJWK(map[string]string{"rs": "p256.pub", "ps": "ed25519.pub", "es": "rsa2048.pub", "ed": "p384.pub"}[s.Family]), false
+	default:
+		// the valid signature in another encoding than the strict one (sigenc_test.go)
+		e, ok := sigEncByName(strings.TrimPrefix(c.Mode, "enc."))
+		if !ok || !strings.HasPrefix(c.Mode, "enc.") {
+			k.harness = "mode " + c.Mode
+			return
+		}
+		sigB = e.f(sigB, s, c.Seed)
+		k.classes = append(k.classes, "sigenc."+s.Family+"."+e.name)
 	}
 	m := k.layout(plain("digest", digestB), plain("signature", sigB))
 	digest, sig := m[0], m[1]
 	var valid bool
 	k.protect(func() { valid, k.err = kit.VerifyPublicKey(digest, sig, c.Alg, key) })
 	k.reached = reached && k.pnc == nil && (c.Mode != "ok" || valid)
+	if strings.HasPrefix(c.Mode, "enc.") && valid {
+		k.classes = append(k.classes, "sigenc.accepted") // informational (what VerifyPublicKey accepts is not this property's business)
+	}
 }
+
+// signedDigest makes the digest (EdDSA: message) of a verification and its valid signature by the reference implementation.
+// An RSA private-key operation takes milliseconds, and an RSA signature is an unstructured number: for the RSA algorithms the
+// digest is one of 8 per (algorithm, key) - chosen by the seed of the case - and its signature is made once per process. The
+// ECDSA and EdDSA signatures (structured: r and s, their top bits and lengths) are made anew for every case.
+func (k *call) signedDigest(s refcrypto.SigSpec, kn string, n int) (digest, sig []byte, err error) {
+	if s.Family != "rs" && s.Family != "ps" {
+		digest = k.rnd("digest", n)
+		sig, err = s.Sign(stdKey(kn), digest)
+		return digest, sig, err
+	}
+	v := k.c.Seed >> 33 % 8
+	digest = expand(vk.FP("rsa-digest", s.Name, kn, v), n)
+	id := fmt.Sprintf("%s/%s/%d", s.Name, kn, v)
+	rsaSigs.Lock()
+	defer rsaSigs.Unlock()
+	if sig, ok := rsaSigs.m[id]; ok {
+		return digest, append([]byte{}, sig...), nil
+	}
+	if sig, err = s.Sign(stdKey(kn), digest); err == nil {
+		rsaSigs.m[id] = append([]byte{}, sig...)
+	}
+	return digest, sig, err
+}
+
+var rsaSigs = struct {
+	sync.Mutex
+	m map[string][]byte
+}{m: map[string][]byte{}}
 
 // ------------------------------------------------------------------ aeskw
 
